@@ -301,13 +301,27 @@ func backSliceOpt(v ssa.Value, through func(ssa.Value) bool, ctrl bool) map[ssa.
 			if refs := y.Referrers(); refs != nil {
 				for _, ref := range *refs {
 					if fa, ok := ref.(*ssa.FieldAddr); ok && fa.X == ssa.Value(y) {
-						if rr := fa.Referrers(); rr != nil {
+						// stores into the field, and into the fields of a struct-valued field (nested literals)
+						var into func(fa *ssa.FieldAddr, d int)
+						into = func(fa *ssa.FieldAddr, d int) {
+							rr := fa.Referrers()
+							if rr == nil || d > 3 {
+								return
+							}
 							for _, u := range *rr {
-								if st, ok := u.(*ssa.Store); ok && st.Addr == ssa.Value(fa) {
-									push(st.Val)
+								switch w := u.(type) {
+								case *ssa.Store:
+									if w.Addr == ssa.Value(fa) {
+										push(w.Val)
+									}
+								case *ssa.FieldAddr:
+									if w.X == ssa.Value(fa) {
+										into(w, d+1)
+									}
 								}
 							}
 						}
+						into(fa, 0)
 					}
 				}
 			}
